@@ -85,7 +85,9 @@ impl Cors {
 
         let (origin_scheme, origin_authority) = match uri_parts {
             Some((s, o)) => (s, o),
-            None => return origin == "localhost" || origin == "null",
+            // An origin without a scheme (`null`, a bare host name) is never the request's own
+            // origin: it has to be allowed by a rule like any other cross-origin request.
+            None => return false,
         };
         if Some(origin_scheme) != uri.scheme_str() {
             return false;
